@@ -172,6 +172,9 @@ def run(p, report, tier):
     report.rule("R10.3", "for every state variable seeded in the simulation (tmp = self.x_), the set of update "
                 "operators (normalised right-hand sides with their indicator polarity) applied to tmp in the "
                 "simulation loop equals the set applied to self.x_ in update (bulk counter forms are equivalent)", floor=10)
+    report.rule("R10.6", "inside the per-instance simulation loop the committed attributes that were copied into "
+                "running locals are not read again, and a simulation copy made by a converting constructor "
+                "(list(x), deque(x)) preserves the kind of container the attribute is created as", floor=8)
     report.rule("R10.4", "queried indices are built only by appending the enumerate counter at most once per "
                 "iteration, by np.where(mask)[0], or are the budget manager's own result", floor=13)
     report.rule("R10.5", "if the simulation draws from self.random_state_ under get_state/set_state, update advances "
@@ -323,6 +326,46 @@ def run(p, report, tier):
                        f"{q.file}:{L.lineno}", ok,
                        detail=("operators agree: " + "; ".join(f"{o} {r} [{pl}]" for o, r, pl in sorted(sim))) if ok else
                        ("simulated only: " + str(sorted(miss)) + " committed only: " + str(sorted(extra))))
+    # ---------------- R10.6 simulation works on its running copies
+    from .c03 import creation_kinds, CONV_FUNCS
+    for ci, q in pairs:
+        if q is None or is_abstract(q):
+            continue
+        L = c04.instance_loop(q.node)
+        if L is None:
+            continue
+        seeds = c04.seeds_of(q.node)
+        copies = {}
+        for n in ast.walk(q.node):
+            if isinstance(n, ast.Assign) and len(n.targets) == 1 and isinstance(n.targets[0], ast.Name) \
+                    and isinstance(n.value, ast.Call) and len(n.value.args) == 1 and \
+                    isinstance(n.value.args[0], ast.Attribute) and isinstance(n.value.args[0].value, ast.Name) \
+                    and n.value.args[0].value.id == "self" and n.value.args[0].attr.endswith("_"):
+                copies[n.targets[0].id] = (n.value.args[0].attr, c04.callname_(n.value), n)
+        ent = f"{ci.name}.{q.name}"
+        seeded_attrs = set(seeds.values()) | {a for a, _, _ in copies.values()}
+        stale = []
+        for n in ast.walk(L):
+            if isinstance(n, ast.Attribute) and isinstance(n.value, ast.Name) and n.value.id == "self" \
+                    and n.attr in seeded_attrs and isinstance(n.ctx, ast.Load):
+                stale.append(n)
+        if seeded_attrs:
+            report.add("R10.6", ent, "the per-instance loop reads the running copies, not the committed attributes",
+                       f"{q.file}:{L.lineno}", not stale,
+                       detail=f"running copies of {sorted(seeded_attrs)}" if not stale else
+                       "; ".join(f"self.{n.attr} read at line {n.lineno} inside the loop although a running copy exists: "
+                                 "instances granted earlier in the same chunk are not accounted" for n in stale[:3]))
+        for tmp, (attr, fn, node) in sorted(copies.items()):
+            if fn in CONV_FUNCS:
+                ck = creation_kinds(p, ci, attr)
+                ok = ck == {fn}
+                report.add("R10.6", ent, f"simulation copy `{norm_stmt(node, 60)}` preserves the container", f"{q.file}:{node.lineno}",
+                           ok, detail="same kind of container" if ok else
+                           f"self.{attr} is created as {sorted(ck)} but the simulation works on {fn}(...): attributes such as "
+                           "maxlen are lost, so a chunk is simulated on a different window than the one update commits to")
+            else:
+                report.add("R10.6", ent, f"simulation copy `{norm_stmt(node, 60)}` preserves the container", f"{q.file}:{node.lineno}",
+                           True, detail=f"{fn} keeps type and attributes", nontrivial=False)
     # ---------------- R10.4
     ents = [(ci, p.find_method(ci, "query")) for ci in stream] + [(ci, p.find_method(ci, "query_by_utility")) for ci in bms]
     for ci, f in ents:
